@@ -78,7 +78,11 @@ func smallPat(t *rapid.T, depth int) *ref.Pat {
 	if depth == 0 {
 		switch rapid.IntRange(0, 6).Draw(t, "a") {
 		case 0, 1, 2:
-			return &ref.Pat{K: "lit", R: rapid.SampledFrom([]rune{'a', 'b', 'i', 'n', 't', '9', '+', '=', '"', '\\'}).Draw(t, "r")}
+			p := &ref.Pat{K: "lit", R: rapid.SampledFrom([]rune{'a', 'b', 'i', 'n', 't', '9', '+', '=', '"', '\\', 'a', 'b', 0xE9, 0x1F60, 0x1F600}).Draw(t, "r")}
+			if rapid.IntRange(0, 3).Draw(t, "spelled") == 0 {
+				p.Spell = rapid.SampledFrom([]int{2, 4, 5, 6, 7, 8}).Draw(t, "form")
+			}
+			return p
 		case 3:
 			return &ref.Pat{K: "cls", Name: rapid.SampledFrom([]string{`\d`, `\w`}).Draw(t, "c")}
 		case 4:
